@@ -31,6 +31,9 @@ pub enum Damage {
     /// not a damage: the document as text rendered by the harness itself instead of by a noodles
     /// writer (CRLF line ends, no final newline, raw UTF-8) — text formats only
     RawText,
+    /// not a damage: the BGZF payload re-cut into blocks at arbitrary byte offsets (BGZF based
+    /// files only): block boundaries inside records, length prefixes and lines
+    Reframe(u32),
 }
 
 #[derive(Clone, Debug, Serialize, Deserialize)]
@@ -90,6 +93,14 @@ fn check_reader(name: &'static str, c: &Case) -> Verdict {
         Damage::RawText => {
             if let Some(b) = drv.raw_input(&c.doc) {
                 bytes = b;
+            }
+            false
+        }
+        Damage::Reframe(seed) => {
+            if drv.is_bgzf() {
+                if let Some(b) = crate::oracle::bgzf_walk::reframed(&bytes, *seed) {
+                    bytes = b;
+                }
             }
             false
         }
@@ -175,6 +186,7 @@ fn check_reader(name: &'static str, c: &Case) -> Verdict {
         .label_if(!damaged, "valid-input")
         .label_if(matches!(c.damage, Damage::EmptyMember(_)) && drv.is_bgzf(), "empty-member-mid-file")
         .label_if(matches!(c.damage, Damage::RawText) && drv.raw_input(&c.doc).is_some(), "harness-rendered-text")
+        .label_if(matches!(c.damage, Damage::Reframe(_)) && drv.is_bgzf(), "block-boundaries-anywhere")
         .label_if(drivers::records_of(&sync_t).len() >= 2, "records>=2")
         .label_if(c.workers > 1, "workers>1"))
 }
@@ -278,6 +290,7 @@ pub fn property() -> Property {
                         1 => (0u16..1000, any::<u8>()).prop_map(|(p, x)| Damage::Flip(p, x)),
                         2 => (0u16..=1000).prop_map(Damage::EmptyMember),
                         2 => Just(Damage::RawText),
+                        3 => any::<u32>().prop_map(Damage::Reframe),
                     ];
                     (doc, script(), 1u8..=8, damage).prop_map(|(doc, script, workers, damage)| Case { doc, script, workers, damage }).boxed()
                 }),
